@@ -459,3 +459,36 @@ CHECKS["C17"] = dict(
         level_note="Trusts the harness's MUS and XMIDI writers/interpreters (written from the format documentation, not from the converters).",
     ),
 )
+
+_C01_ENV = {"ASAN_OPTIONS": "max_allocation_size_mb=256"}
+CHECKS["C01"] = dict(
+    harnesses={"pbt": dict(src="c01_music.cpp", cfg="asan", kind="rc", env=_C01_ENV),
+               "fuzz": dict(src="c01_music.cpp", cfg="asan", kind="fuzz", extra_flags=["-DVERIF_FUZZ"], env=_C01_ENV)},
+    quick=[
+        dict(name="pbt", harness="pbt", workers=8, args=["--n", "1500"]),
+        dict(name="fuzz", harness="fuzz", workers=8, empty_corpus_workers=2, args=["-runs=15000", "-max_len=4096"], unit_timeout=60),
+    ],
+    thorough=[
+        dict(name="pbt", harness="pbt", workers=16, args=["--n", "40000"], timeout=10800),
+        dict(name="fuzz", harness="fuzz", workers=16, empty_corpus_workers=4, args=["-max_total_time=1200", "-max_len=65536"], unit_timeout=60, timeout=7200),
+    ],
+    rule="pbt: a valid file of every front-end (SMF with every event kind, loop markers, device-switch meta; RMI; GMF; MUS; XMI with 1 and 3 songs; CMF header; rapidcheck-generated SMF/RMI) "
+         "receives 0-4 structured mutations (truncate anywhere, MTrk/IFF length fields set to 0/1/0x7fffffff/0xffffffff/..., division and track count rewritten incl. 0, byte rewrite, end on FF, "
+         "unterminated VLQ, slice duplication/deletion, MUS header fields, trailing bytes, bit flips), is loaded with a song number / loop / tempo chosen before the load and followed by up to 12 ops "
+         "(tick, play, seek incl. negative/beyond the end, rewind, queries, song selection -3..5, track/channel options, titles and markers with out-of-range indices, describe, re-open whole or "
+         "truncated). fuzz: libFuzzer over file bytes + a decoded tail of the same options/ops, from the committed seed files and from an empty corpus. Oracle: openData returns 0/-1 with an error "
+         "text, no sanitizer report / assert / abort / exception, 30 s CPU watchdog, single allocations capped at 256 MiB, and a known-good SMF must load and play to its end afterwards. "
+         "Non-trivial = the loader got past format detection and at least one follow-up op ran; distinct by FNV-64 of the case.",
+    assumptions=[
+        "inputs are at most 64 KiB; 'time and memory proportional to the input' is judged with fixed generous caps (30 s CPU, 256 MiB per allocation) for that size",
+        "libFuzzer timeout/oom/slow-unit artifacts are only candidates: they count when the deterministic replay under the CPU watchdog fails 3/3",
+    ],
+    min_nontrivial={"quick": 1000, "thorough": 20000},
+    manifest=dict(
+        engine="rapidcheck + libFuzzer",
+        technique="coverage-guided fuzzing (libFuzzer, structure-aware tail) and mutation-based property testing of the music loader and follow-up calls under ASan/UBSan with contract, CPU-time and allocation oracles",
+        level_text="Hostile music data for every front-end, then playback/seek/song-switch/metadata calls; memory errors, UB, aborts, hangs, oversized allocations, missing error text and a "
+                   "broken instance afterwards are failures.",
+        level_note="Trusts the sanitizers; the hang oracle is CPU time (30 s per case), never wall clock.",
+    ),
+)
